@@ -83,8 +83,14 @@ def main():
     jobs = []
     try:
         import itertools
+        seqs = list(itertools.product(gen.KINDS, repeat=length))
+        if tier == "quick":
+            # plus the smallest histories in which a list of routes waiting for one
+            # next hop matters: two new routes, one deletion, one resolution, any order
+            seqs += sorted(set(itertools.permutations("NNDR")))
         for universe in ("A", "B"):
-            for kinds in itertools.product(gen.KINDS, repeat=length):
+            for kinds in seqs:
+                length = len(kinds)
                 name = "seq%s_%s" % (universe, "".join(kinds))
                 np_, nh, ni = gen.universe_sizes(universe)
                 # one CrossHair process per (kind sequence, concrete first event);
@@ -165,7 +171,7 @@ def main():
             "exhaustive": not inconclusive and not mismatches,
             "explanation": "states = harness functions (one per sequence of event kinds and universe) for which CrossHair's symbolic execution of the real route_control.py returned 'Confirmed over all paths' (all index values, all paths); transitions = events executed per function x functions; counterexamples are re-run under plain CPython before being reported",
             "functions_encoded": ["conf/route_control.py: RouteController.add_new_route_entry, _add_neighbor, _create_update_module, _create_module_links, add_unresolved_new_neighbor, delete_route_entry, _probe_addr, _get_gate_idx, fetch_mac, validate_ipv4, get_*_module_name, mac_to_int, mac_to_hex"],
-            "bounds": ["%d events per sequence, all %d kind sequences, universes %s" % (length, 3 ** length, universes),
+            "bounds": ["%s, universes %s" % ("3 events per sequence, all 27 kind sequences, plus the 12 orders of {new route, new route, delete route, neighbour resolution}" if tier == "quick" else "4 events per sequence, all 81 kind sequences", universes),
                        "events the kernel cannot produce (duplicate RTM_NEWROUTE, RTM_DELROUTE of an absent route, repeated RTM_NEWNEIGH) are skipped"],
             "queries": len(results), "solver": "CrossHair 0.0.x over z3 (python3-vt)", "solver_s": round(sum(r[2] for r in results), 1),
             "functions_confirmed": confirmed, "functions_total": len(results),
